@@ -284,6 +284,11 @@ Manifest decode_manifest(const std::string& uri) {
 
     const auto expires = read_u64(payload, offset);
     offset += 8;
+    constexpr auto max_expiry_seconds =
+        std::chrono::duration_cast<std::chrono::seconds>(std::chrono::system_clock::duration::max()).count();
+    if (expires > static_cast<std::uint64_t>(max_expiry_seconds)) {
+        throw std::invalid_argument("manifest expiry out of range");
+    }
     manifest.expires_at = std::chrono::system_clock::time_point{std::chrono::seconds{expires}};
 
     manifest.threshold = payload[offset++];
